@@ -31,6 +31,7 @@ type EntrySpec struct {
 	MaxConc      int      `json:"max_concretize"`
 	Bounds       string   `json:"bounds"`
 	What         string   `json:"what"`
+	Native       bool     `json:"native"` // counterexamples of this entry are replayed natively
 }
 
 type PkgSpec struct {
@@ -40,6 +41,9 @@ type PkgSpec struct {
 	Quick     []EntrySpec `json:"quick"`
 	Thorough  []EntrySpec `json:"thorough"`
 	MustFail  []EntrySpec `json:"must_fail"`
+	// native replay: harness files to leave out / to add when compiling natively
+	NativeSkip  []string `json:"native_skip"`
+	NativeExtra []string `json:"native_extra"`
 }
 
 type CheckSpec struct {
@@ -217,6 +221,10 @@ func cmdCheck(args []string) {
 	var entries []entryEvidence
 	var samples []any
 	var allViolations []Violation
+	entryPkg := map[string]PkgSpec{}
+	entryNative := map[string]bool{}
+	nativeRun, nativeOK := 0, 0
+	var nativeNotes []string
 	var inconclusive []string
 	funcs := map[string]int{}
 	stubs := map[string]bool{}
@@ -283,6 +291,8 @@ func cmdCheck(args []string) {
 			if *only != "" && es.Entry != *only {
 				continue
 			}
+			entryPkg[es.Entry] = ps
+			entryNative[es.Entry] = es.Native
 			if prog.entryFunc(es.Entry) == nil {
 				msg := "entry function missing: " + es.Entry
 				fmt.Println("INCONCLUSIVE", msg)
@@ -344,6 +354,17 @@ func cmdCheck(args []string) {
 				mustFailN++
 				if len(res.Violations) > 0 {
 					mustFailOK++
+					if es.Native {
+						// the twin's counterexample doubles as the end-to-end test of the replay pipeline
+						tv := res.Violations[0]
+						nr := nativeReplay(*repo, *verifDir, ps, &tv, filepath.Join(*verifDir, "replays", spec.ID+"-twin-"+es.Entry))
+						nativeRun++
+						if nr.Reproduced {
+							nativeOK++
+						}
+						nativeNotes = append(nativeNotes, fmt.Sprintf("%s (must-fail twin): %s", es.Entry, nr.Outcome))
+						fmt.Printf("    native replay of the twin's counterexample: %s\n", nr.Outcome)
+					}
 				} else {
 					msg := "must-fail twin " + es.Entry + " did not fail: the harness or the engine is vacuous"
 					fmt.Println("INCONCLUSIVE", msg)
@@ -416,7 +437,18 @@ func cmdCheck(args []string) {
 		nViol++
 		dir := filepath.Join(*verifDir, "replays", fmt.Sprintf("%s-%s-%d", spec.ID, v.Entry, nViol))
 		os.MkdirAll(dir, 0o755)
-		vb, _ := json.MarshalIndent(map[string]any{"property": spec.ID, "spec": *specPath, "tier": *tier, "violation": v}, "", " ")
+		var nrp *nativeResult
+		if entryNative[v.Entry] {
+			nr := nativeReplay(*repo, *verifDir, entryPkg[v.Entry], v, filepath.Join(dir, "native"))
+			nrp = &nr
+			nativeRun++
+			if nr.Reproduced {
+				nativeOK++
+				v.Confirmed = "native"
+			}
+			nativeNotes = append(nativeNotes, fmt.Sprintf("%s: %s", v.Entry, nr.Outcome))
+		}
+		vb, _ := json.MarshalIndent(map[string]any{"property": spec.ID, "spec": *specPath, "tier": *tier, "violation": v, "native_replay": nrp}, "", " ")
 		rp := filepath.Join(dir, "counterexample.json")
 		os.WriteFile(rp, vb, 0o644)
 		_ = replayed
@@ -427,6 +459,9 @@ func cmdCheck(args []string) {
 				parts = append(parts, fmt.Sprintf("%s=%#x", in.Name, in.Value))
 			}
 			fmt.Println("    inputs:", strings.Join(parts, " "))
+		}
+		if nrp != nil {
+			fmt.Printf("    native replay (go test against the real build): %s\n", nrp.Outcome)
 		}
 		fmt.Printf("VIOLATION property=%s replay=%s\n", spec.ID, rp)
 		exit = 1
@@ -466,7 +501,9 @@ func cmdCheck(args []string) {
 	cov := map[string]any{
 		"states":                        states,
 		"transitions":                   trans,
-		"traces_validated_against_impl": 0, // no native replay: counterexamples are re-executed symbolically by `symgo replay`
+		"traces_validated_against_impl": nativeOK, // counterexamples (incl. the must-fail twin's) reproduced by `go test` against the real build
+		"native_replays_run":            nativeRun,
+		"native_replay_notes":           nativeNotes,
 		"samples":                       samples,
 		"explanation": "bounded symbolic model checking of the real code: states = completed symbolic paths (each covers all input values satisfying its path condition), " +
 			"transitions = decisions taken (branches, concretisations, scheduling choices); every assertion on every path is decided by an SMT query (unsat = holds for all values on that path)",
